@@ -522,4 +522,12 @@ theorem charge_add_dt (p : List K) (dt₁ dt₂ w : K) :
     simp only [charge, vadd, List.map_cons, List.zipWith_cons_cons] at ih ⊢
     rw [ih]; congr 1; ring
 
+theorem charge_smul_power (c : K) (p : List K) (dt w : K) :
+    charge (p.map (c * ·)) dt w = (charge p dt w).map (c * ·) := by
+  simp only [charge, List.map_map]
+  apply List.map_congr_left
+  intro x _
+  simp only [Function.comp]
+  ring
+
 end HcipyVerif.Detector
